@@ -340,6 +340,22 @@ impl RleEncoder {
 pub struct EncoderV2 {
     pub buf: Vec<u8>,
     pub ds_curr_val: u32,
+    pub string_encoder: StringEncoder,
+}
+
+/// OPAQUE stand-in for `StringEncoder` (`encode_utf16`, `String::push_str` are not ingestible): the strings written so far
+/// are an uninterpreted view; `write` is a trusted stand-in that appends to it
+#[verifier::external_body] pub struct StringEncoder { opaque: () }
+
+pub uninterp spec fn string_column(e: StringEncoder) -> Seq<Seq<char>>;
+
+impl StringEncoder {
+    #[verifier::external_body] pub fn write(&mut self, str: &str)
+        ensures
+            string_column(*final(self)) == string_column(*old(self)).push(str@),
+    {
+        unimplemented!()
+    }
 }
 
 impl EncoderV2 {
@@ -363,6 +379,67 @@ impl EncoderV2 {
             final(self).buf@ == old(self).buf@ + enc_uint((len - 1) as nat),
             final(self).ds_curr_val == old(self).ds_curr_val + len,
     @*/
+}
+
+// ---------------------------------------------------------------------------------------------
+// the encoder back ends as implementations of `Write`: out() := the `buf` field (for EncoderV2: the REST section of the v2
+// layout).  The impl bodies are checked against the TRAIT contracts of lib0_common: `write_all` appends EXACTLY `buf`.
+// (An impl that length-prefixes in `write_all` — the defect repaired in /repo "EncoderV2 wrote the length of every buffer
+// twice" — fails `write_all`'s postcondition; canary `v2_write_all_length_prefixed`.)
+// ---------------------------------------------------------------------------------------------
+// field visibility only (the spec function of the trait impl mentions the field)
+/*@extract yrs/src/updates/encoder.rs | - | struct EncoderV1 | rules=SUB(from=buf: Vec<u8>;;to=pub buf: Vec<u8>) @*/
+
+impl Write for EncoderV1 {
+    open spec fn out(&self) -> Seq<u8> {
+        self.buf@
+    }
+
+    /*@extract yrs/src/updates/encoder.rs | impl Write for EncoderV1 | fn write_all | label=v1_enc_write_all @*/
+
+    /*@extract yrs/src/updates/encoder.rs | impl Write for EncoderV1 | fn write_u8 | label=v1_enc_write_u8 @*/
+}
+
+impl Write for EncoderV2 {
+    open spec fn out(&self) -> Seq<u8> {
+        self.buf@
+    }
+
+    /*@extract yrs/src/updates/encoder.rs | impl Write for EncoderV2 | fn write_all | label=v2_enc_write_all @*/
+
+    /*@extract yrs/src/updates/encoder.rs | impl Write for EncoderV2 | fn write_u8 | label=v2_enc_write_u8 @*/
+}
+
+impl EncoderV2 {
+    // `write_string` is overridden by EncoderV2 to write into the STRING COLUMN, not to out(): it does not satisfy the contract
+    // of the default `Write::write_string` (out() += enc_buf(utf8(str)), see unit `tags`), i.e. the trait has to be read as
+    // allowing an override that writes elsewhere.  Its own honest contract: out() and the delete-set register are unchanged,
+    // the string joins the string column.  (Pulled from the `impl Write for EncoderV2` block into an inherent impl: the
+    // sliced `Write` of lib0_common has no `write_string`.)
+    /*@extract yrs/src/updates/encoder.rs | impl Write for EncoderV2 | fn write_string | label=v2_enc_write_string
+    @sig
+        ensures
+            final(self).buf@ == old(self).buf@,
+            final(self).ds_curr_val == old(self).ds_curr_val,
+            string_column(final(self).string_encoder) == string_column(old(self).string_encoder).push(str@),
+    @*/
+}
+
+/// consequence for the DEFAULT methods on these impls: `EncoderV2::write_buf` (WriteExt, contract out() += enc_buf(b)) puts
+/// ONE length prefix into the rest section, and `DecoderV2::read_buf` (ReadExt, contract dec_buf(rest())) positioned where
+/// the buffer starts reads exactly b back and stops behind it
+pub proof fn lemma_v2_rest_buf_round_trip(e0: EncoderV2, e1: EncoderV2, b: Seq<u8>, tail: Seq<u8>)
+    requires
+        // what `e.write_buf(x)` with x.bytes() == b ensures for e0 = old(e), e1 = final(e)
+        e1.out() == e0.out() + enc_buf(b),
+        b.len() <= u32::MAX,
+    ensures
+        tail_from(e1.out() + tail, e0.out().len() as int) == enc_buf(b) + tail,
+        dec_buf(tail_from(e1.out() + tail, e0.out().len() as int)) == Some((b, enc_buf(b).len())),
+        enc_buf(b) == enc_uint(b.len()) + b,
+{
+    assert((e0.out() + enc_buf(b) + tail).skip(e0.out().len() as int) =~= enc_buf(b) + tail);
+    lemma_dec_enc_buf(b, tail);
 }
 
 /// C09 for the delete-set clock codec: the decoder, started with the same running value, reads back what was written
